@@ -59,6 +59,14 @@ def digest(case):
     return hashlib.sha1(dumps(case).encode()).hexdigest()[:16]
 
 
+def sstr(x):
+    """str() of an object of the code under test that may itself raise."""
+    try:
+        return str(x)
+    except Exception as exc:  # reported, never fatal for the harness
+        return "<str() raised %s: %s>" % (type(exc).__name__, exc)
+
+
 class Ctx(object):
     def __init__(self, prop, tier, seed, shard=0, nshards=1, tmp=None):
         self.prop = prop
